@@ -100,13 +100,15 @@ structure MapInv (c : Conn) : Prop where
   len : c.map.ids.blocks.length = 512
   srvUsed : ∀ s r, (s, r) ∈ c.server → s < 32768 ∧ c.map.ids.isUsed s = true
   srvOnce : ∀ s, (srvStreams c).count s ≤ 1
-  reqOnce : ∀ r, c.sending.count r + c.queue.count r + (srvReqs c).count r ≤ 1
+  reqOnce : ∀ r, c.permits.count r + (c.sending.count r + c.queue.count r + (srvReqs c).count r) ≤ 1
   reqLt : ∀ r, r ∈ c.sending ∨ r ∈ c.queue ∨ r ∈ srvReqs c → r < c.nextReq
+  permLt : ∀ r, r ∈ c.permits → r < c.nextReq
   hSrv : ∀ s r, c.map.handlers.get s = some r → (s, r) ∈ c.server
   orphSrv : ∀ s, s ∈ c.map.orphans → s ∈ srvStreams c ∧ c.map.handlers.get s = none
   owed : c.broken = false → ∀ s r, (s, r) ∈ c.server → s ∈ c.map.orphans ∨ c.map.handlers.get s = some r
   inv : ∀ r s, c.map.req2stream.get r = some s ↔ c.map.handlers.get s = some r
-  brk : c.broken = true → c.queue = [] ∧ c.sending = [] ∧ c.notices = [] ∧ c.map.handlers = []
+  brk : c.broken = true → c.queue = [] ∧ c.sending = [] ∧ c.notices = [] ∧ c.map.handlers = [] ∧
+    ∃ k, c.cause = some k
 
 theorem MapInv.init : MapInv Conn.init := by
   constructor <;> simp [Conn.init, HMap.new, new_length, srvStreams, srvReqs]
@@ -203,12 +205,22 @@ theorem mem_streams {c : Conn} {s r : Nat} (h : (s, r) ∈ c.server) : s ∈ srv
 theorem mem_reqs {c : Conn} {s r : Nat} (h : (s, r) ∈ c.server) : r ∈ srvReqs c :=
   List.mem_map.mpr ⟨(s, r), h, rfl⟩
 
+theorem MapInv.fresh {c : Conn} (h : MapInv c) :
+    c.permits.count c.nextReq = 0 ∧ c.sending.count c.nextReq = 0 ∧ c.queue.count c.nextReq = 0 ∧
+      (srvReqs c).count c.nextReq = 0 :=
+  ⟨count_zero_of_lt (fun r hr => h.permLt r hr),
+   count_zero_of_lt (fun r hr => h.reqLt r (Or.inl hr)),
+   count_zero_of_lt (fun r hr => h.reqLt r (Or.inr (Or.inl hr))),
+   count_zero_of_lt (fun r hr => h.reqLt r (Or.inr (Or.inr hr)))⟩
+
 theorem MapInv.submit {c : Conn} (h : MapInv c) : MapInv (step c .submit) := by
   simp only [step]
   split
-  · exact { h with reqLt := fun r hr => Nat.lt_succ_of_lt (h.reqLt r hr) }
+  · exact { h with reqLt := fun r hr => Nat.lt_succ_of_lt (h.reqLt r hr),
+                   permLt := fun r hr => Nat.lt_succ_of_lt (h.permLt r hr) }
   · rename_i hb
-    refine { h with reqOnce := ?_, reqLt := ?_, brk := ?_ }
+    refine { h with reqOnce := ?_, reqLt := ?_, brk := ?_,
+                    permLt := fun r hr => Nat.lt_succ_of_lt (h.permLt r hr) }
     · intro r
       have := h.reqOnce r
       simp only [List.count_append, List.count_cons, List.count_nil]
@@ -216,9 +228,7 @@ theorem MapInv.submit {c : Conn} (h : MapInv c) : MapInv (step c .submit) := by
       · rename_i e
         have e : c.nextReq = r := by simpa using e
         subst e
-        have h1 := count_zero_of_lt (l := c.sending) (n := c.nextReq) (fun r hr => h.reqLt r (Or.inl hr))
-        have h2 := count_zero_of_lt (l := c.queue) (n := c.nextReq) (fun r hr => h.reqLt r (Or.inr (Or.inl hr)))
-        have h3 := count_zero_of_lt (l := srvReqs c) (n := c.nextReq) (fun r hr => h.reqLt r (Or.inr (Or.inr hr)))
+        obtain ⟨h0, h1, h2, h3⟩ := h.fresh
         simp only [srvReqs] at *
         omega
       · simp only [srvReqs] at *; omega
@@ -234,9 +244,11 @@ theorem MapInv.submit {c : Conn} (h : MapInv c) : MapInv (step c .submit) := by
 theorem MapInv.submitFull {c : Conn} (h : MapInv c) : MapInv (step c .submitFull) := by
   simp only [step]
   split
-  · exact { h with reqLt := fun r hr => Nat.lt_succ_of_lt (h.reqLt r hr) }
+  · exact { h with reqLt := fun r hr => Nat.lt_succ_of_lt (h.reqLt r hr),
+                   permLt := fun r hr => Nat.lt_succ_of_lt (h.permLt r hr) }
   · rename_i hb
-    refine { h with reqOnce := ?_, reqLt := ?_, brk := ?_ }
+    refine { h with reqOnce := ?_, reqLt := ?_, brk := ?_,
+                    permLt := fun r hr => Nat.lt_succ_of_lt (h.permLt r hr) }
     · intro r
       have := h.reqOnce r
       simp only [List.count_append, List.count_cons, List.count_nil]
@@ -244,9 +256,7 @@ theorem MapInv.submitFull {c : Conn} (h : MapInv c) : MapInv (step c .submitFull
       · rename_i e
         have e : c.nextReq = r := by simpa using e
         subst e
-        have h1 := count_zero_of_lt (l := c.sending) (n := c.nextReq) (fun r hr => h.reqLt r (Or.inl hr))
-        have h2 := count_zero_of_lt (l := c.queue) (n := c.nextReq) (fun r hr => h.reqLt r (Or.inr (Or.inl hr)))
-        have h3 := count_zero_of_lt (l := srvReqs c) (n := c.nextReq) (fun r hr => h.reqLt r (Or.inr (Or.inr hr)))
+        obtain ⟨h0, h1, h2, h3⟩ := h.fresh
         simp only [srvReqs] at *
         omega
       · simp only [srvReqs] at *; omega
@@ -285,6 +295,67 @@ theorem MapInv.enqueue {c : Conn} (r : Nat) (h : MapInv c) : MapInv (step c (.en
         · exact h.reqLt x (Or.inr (Or.inr hx))
       · intro hb'; simp_all
     · exact h
+
+theorem MapInv.submitRace {c : Conn} (h : MapInv c) : MapInv (step c .submitRace) := by
+  simp only [step]
+  split
+  · exact { h with reqLt := fun r hr => Nat.lt_succ_of_lt (h.reqLt r hr),
+                   permLt := fun r hr => Nat.lt_succ_of_lt (h.permLt r hr) }
+  · rename_i hb
+    refine { h with reqOnce := ?_, reqLt := fun r hr => Nat.lt_succ_of_lt (h.reqLt r hr), brk := ?_, permLt := ?_ }
+    · intro r
+      have := h.reqOnce r
+      simp only [List.count_append, List.count_cons, List.count_nil]
+      split
+      · rename_i e
+        have e : c.nextReq = r := by simpa using e
+        subst e
+        obtain ⟨h0, h1, h2, h3⟩ := h.fresh
+        simp only [srvReqs] at *
+        omega
+      · simp only [srvReqs] at *; omega
+    · intro r hr
+      simp only [List.mem_append, List.mem_singleton] at hr
+      show r < c.nextReq + 1
+      rcases hr with hr | hr
+      · exact Nat.lt_succ_of_lt (h.permLt r hr)
+      · subst hr; exact Nat.lt_succ_self _
+    · intro hb'; simp_all
+
+theorem MapInv.push {c : Conn} (r : Nat) (h : MapInv c) : MapInv (step c (.push r)) := by
+  simp only [step]
+  split
+  · rename_i hmem
+    have hmem : r ∈ c.permits := by simpa using hmem
+    have hpos : 0 < c.permits.count r := List.count_pos_iff.mpr hmem
+    split
+    · refine { h with reqOnce := ?_, permLt := fun x hx => h.permLt x (List.mem_filter.mp hx).1 }
+      intro x
+      have := h.reqOnce x
+      show (c.permits.filter (· != r)).count x +
+        (c.sending.count x + c.queue.count x + (srvReqs c).count x) ≤ 1
+      rw [count_filter_ne]
+      split <;> omega
+    · rename_i hb
+      refine { h with reqOnce := ?_, reqLt := ?_, brk := ?_,
+                      permLt := fun x hx => h.permLt x (List.mem_filter.mp hx).1 }
+      · intro x
+        have := h.reqOnce x
+        simp only [List.count_append, List.count_cons, List.count_nil, count_filter_ne]
+        by_cases hx : x = r
+        · subst hx; simp only [srvReqs] at *; simp; omega
+        · have : ¬ (r == x) = true := by simpa using fun e => hx e.symm
+          simp only [srvReqs] at *
+          simp [hx, this]; omega
+      · intro x hx
+        simp only [List.mem_append, List.mem_singleton] at hx
+        rcases hx with hx | (hx | hx) | hx
+        · exact h.reqLt x (Or.inl hx)
+        · exact h.reqLt x (Or.inr (Or.inl hx))
+        · subst hx; exact h.permLt x hmem
+        · exact h.reqLt x (Or.inr (Or.inr hx))
+      · intro hb'; simp_all
+  · exact h
 
 theorem MapInv.writerTake {c : Conn} (h : MapInv c) : MapInv (step c .writerTake) := by
   simp only [step]
@@ -353,6 +424,7 @@ theorem MapInv.writerTake {c : Conn} (h : MapInv c) : MapInv (step c .writerTake
           · exact Or.inr (Or.inl (List.mem_cons_of_mem _ hx))
           · exact Or.inr (Or.inr hx)
           · subst hx; exact Or.inr (Or.inl (List.mem_cons_self))
+        · exact h.permLt
         · intro s' r' hh
           simp only [AMap.get_insert] at hh
           simp only [List.mem_append, List.mem_singleton, Prod.mk.injEq]
@@ -399,7 +471,7 @@ theorem MapInv.writerTake {c : Conn} (h : MapInv c) : MapInv (step c .writerTake
           have := h.reqOnce x
           rw [hq] at this
           simp only [List.count_cons] at this
-          show c.sending.count x + q.count x + (srvReqs c).count x ≤ 1
+          show c.permits.count x + (c.sending.count x + q.count x + (srvReqs c).count x) ≤ 1
           omega
         · intro x hx
           apply h.reqLt
@@ -414,12 +486,15 @@ theorem MapInv.cancel {c : Conn} (r : Nat) (h : MapInv c) : MapInv (step c (.can
   simp only [step]
   have key : MapInv ({ c with callers := setCaller c.callers r CallerSt.abandoned,
                                sending := c.sending.filter (fun x => x != r),
+                               permits := c.permits.filter (fun x => x != r),
                                notices := if c.broken then c.notices else c.notices ++ [r] } : Conn) := by
-    refine { h with reqOnce := ?_, reqLt := ?_, brk := ?_ }
+    refine { h with reqOnce := ?_, reqLt := ?_, brk := ?_,
+                    permLt := fun x hx => h.permLt x (List.mem_filter.mp hx).1 }
     · intro x
       have := h.reqOnce x
-      show (c.sending.filter (· != r)).count x + c.queue.count x + (srvReqs c).count x ≤ 1
-      rw [count_filter_ne]
+      show (c.permits.filter (· != r)).count x +
+        ((c.sending.filter (· != r)).count x + c.queue.count x + (srvReqs c).count x) ≤ 1
+      rw [count_filter_ne, count_filter_ne]
       split <;> omega
     · intro x hx
       apply h.reqLt
@@ -474,6 +549,7 @@ theorem MapInv.orphanerStep {c : Conn} (h : MapInv c) : MapInv (step c .orphaner
         · exact h.srvOnce
         · exact h.reqOnce
         · exact h.reqLt
+        · exact h.permLt
         · intro s' r' hh
           simp only [AMap.get_erase] at hh
           split at hh
@@ -529,7 +605,7 @@ theorem MapInv.doBreak {c : Conn} (k : BreakKind) (h : MapInv c) : MapInv (doBre
   · exact h.srvOnce
   · intro x
     have := h.reqOnce x
-    show ([] : List Nat).count x + ([] : List Nat).count x + (srvReqs c).count x ≤ 1
+    show c.permits.count x + (([] : List Nat).count x + ([] : List Nat).count x + (srvReqs c).count x) ≤ 1
     simp only [List.count_nil]; omega
   · intro x hx
     apply h.reqLt
@@ -537,13 +613,14 @@ theorem MapInv.doBreak {c : Conn} (k : BreakKind) (h : MapInv c) : MapInv (doBre
     · cases hx
     · cases hx
     · exact Or.inr (Or.inr hx)
+  · exact h.permLt
   · intro s r hh; cases hh
   · intro s hs; cases hs
   · intro hb; cases hb
   · intro r s
     show AMap.get [] r = some s ↔ AMap.get [] s = some r
     simp
-  · intro _; exact ⟨rfl, rfl, rfl, rfl⟩
+  · intro _; exact ⟨rfl, rfl, rfl, rfl, k, rfl⟩
 
 /-- A frame on a stream the server does not owe: the lookup frees the id and finds nothing. -/
 theorem MapInv.freeUnowed {c : Conn} {s : Nat} (h : MapInv c) (hs : s ∉ srvStreams c) :
@@ -666,6 +743,7 @@ theorem MapInv.respond {c : Conn} (i : Nat) (h : MapInv c) : MapInv (step c (.re
           · refine Or.inr (Or.inr ?_)
             obtain ⟨p, hp, e⟩ := List.mem_map.mp hx
             exact List.mem_map.mpr ⟨p, mem_of_mem_eraseIdx hp, e⟩
+        · exact h.permLt
         · intro s' r' hh'
           have := hh s' r' hh'
           exact keep s' r' (h.hSrv s' r' this.2) this.1
@@ -764,6 +842,8 @@ theorem MapInv.step {c : Conn} (h : MapInv c) (e : Ev) : MapInv (step c e) := by
   | submit => exact h.submit
   | submitFull => exact h.submitFull
   | enqueue r => exact h.enqueue r
+  | submitRace => exact h.submitRace
+  | push r => exact h.push r
   | writerTake => exact h.writerTake
   | cancel r => exact h.cancel r
   | orphanerStep => exact h.orphanerStep
@@ -783,7 +863,7 @@ theorem MapInv.run {c : Conn} (h : MapInv c) (evs : List Ev) : MapInv (run c evs
 
 structure CallerInv (c : Conn) : Prop where
   tracked : ∀ r, getCaller c.callers r = some .waiting →
-      r ∈ c.sending ∨ r ∈ c.queue ∨ ∃ s, c.map.handlers.get s = some r
+      r ∈ c.sending ∨ r ∈ c.queue ∨ (∃ s, c.map.handlers.get s = some r) ∨ r ∈ c.permits
   own : ∀ r f, (getCaller c.callers r = some (.delivered (.frame f)) ∨
       getCaller c.callers r = some (.done (.frame f))) → f = r
   noticeAb : ∀ r, r ∈ c.notices → getCaller c.callers r = some .abandoned
@@ -793,11 +873,12 @@ theorem CallerInv.init : CallerInv Conn.init := by
   constructor <;> simp [Conn.init, getCaller]
 
 /-- Installing a fresh caller entry for `nextReq`. -/
-theorem CallerInv.fresh {c : Conn} (h : CallerInv c) (st : CallerSt) (sending queue : List Nat)
-    (hst : st = .waiting → c.nextReq ∈ sending ∨ c.nextReq ∈ queue)
+theorem CallerInv.fresh {c : Conn} (h : CallerInv c) (st : CallerSt) (sending queue permits : List Nat)
+    (hst : st = .waiting → c.nextReq ∈ sending ∨ c.nextReq ∈ queue ∨ c.nextReq ∈ permits)
     (hframe : ∀ f, st ≠ .delivered (.frame f) ∧ st ≠ .done (.frame f))
-    (hs : ∀ r, r ∈ c.sending → r ∈ sending) (hq : ∀ r, r ∈ c.queue → r ∈ queue) :
-    CallerInv ({ c with nextReq := c.nextReq + 1, sending := sending, queue := queue,
+    (hs : ∀ r, r ∈ c.sending → r ∈ sending) (hq : ∀ r, r ∈ c.queue → r ∈ queue)
+    (hp : ∀ r, r ∈ c.permits → r ∈ permits) :
+    CallerInv ({ c with nextReq := c.nextReq + 1, sending := sending, queue := queue, permits := permits,
                         callers := setCaller c.callers c.nextReq st } : Conn) := by
   constructor
   · intro r hw
@@ -805,13 +886,15 @@ theorem CallerInv.fresh {c : Conn} (h : CallerInv c) (st : CallerSt) (sending qu
     split at hw
     · rename_i e; subst e
       simp only [Option.some.injEq] at hw
-      rcases hst hw with m | m
+      rcases hst hw with m | m | m
       · exact Or.inl m
       · exact Or.inr (Or.inl m)
-    · rcases h.tracked r hw with m | m | m
+      · exact Or.inr (Or.inr (Or.inr m))
+    · rcases h.tracked r hw with m | m | m | mp
       · exact Or.inl (hs r m)
       · exact Or.inr (Or.inl (hq r m))
-      · exact Or.inr (Or.inr m)
+      · exact Or.inr (Or.inr (Or.inl m))
+      · exact Or.inr (Or.inr (Or.inr (hp r mp)))
   · intro r f hf
     simp only [getCaller_setCaller] at hf
     split at hf
@@ -837,20 +920,29 @@ theorem CallerInv.fresh {c : Conn} (h : CallerInv c) (st : CallerSt) (sending qu
 theorem CallerInv.submit {c : Conn} (h : CallerInv c) : CallerInv (step c .submit) := by
   simp only [step]
   split
-  · exact h.fresh _ c.sending c.queue (by intro e; cases e) (by intro f; constructor <;> (intro e; cases e))
-      (fun _ m => m) (fun _ m => m)
-  · exact h.fresh _ c.sending (c.queue ++ [c.nextReq]) (by intro _; right; simp)
+  · exact h.fresh _ c.sending c.queue c.permits (by intro e; cases e)
+      (by intro f; constructor <;> (intro e; cases e)) (fun _ m => m) (fun _ m => m) (fun _ m => m)
+  · exact h.fresh _ c.sending (c.queue ++ [c.nextReq]) c.permits (by intro _; right; left; simp)
       (by intro f; constructor <;> (intro e; cases e)) (fun _ m => m)
-      (fun _ m => List.mem_append_left _ m)
+      (fun _ m => List.mem_append_left _ m) (fun _ m => m)
 
 theorem CallerInv.submitFull {c : Conn} (h : CallerInv c) : CallerInv (step c .submitFull) := by
   simp only [step]
   split
-  · exact h.fresh _ c.sending c.queue (by intro e; cases e) (by intro f; constructor <;> (intro e; cases e))
-      (fun _ m => m) (fun _ m => m)
-  · exact h.fresh _ (c.sending ++ [c.nextReq]) c.queue (by intro _; left; simp)
+  · exact h.fresh _ c.sending c.queue c.permits (by intro e; cases e)
+      (by intro f; constructor <;> (intro e; cases e)) (fun _ m => m) (fun _ m => m) (fun _ m => m)
+  · exact h.fresh _ (c.sending ++ [c.nextReq]) c.queue c.permits (by intro _; left; simp)
       (by intro f; constructor <;> (intro e; cases e))
-      (fun _ m => List.mem_append_left _ m) (fun _ m => m)
+      (fun _ m => List.mem_append_left _ m) (fun _ m => m) (fun _ m => m)
+
+theorem CallerInv.submitRace {c : Conn} (h : CallerInv c) : CallerInv (step c .submitRace) := by
+  simp only [step]
+  split
+  · exact h.fresh _ c.sending c.queue c.permits (by intro e; cases e)
+      (by intro f; constructor <;> (intro e; cases e)) (fun _ m => m) (fun _ m => m) (fun _ m => m)
+  · exact h.fresh _ c.sending c.queue (c.permits ++ [c.nextReq]) (by intro _; right; right; simp)
+      (by intro f; constructor <;> (intro e; cases e))
+      (fun _ m => m) (fun _ m => m) (fun _ m => List.mem_append_left _ m)
 
 theorem CallerInv.enqueue {c : Conn} (r : Nat) (h : CallerInv c) : CallerInv (step c (.enqueue r)) := by
   simp only [step]
@@ -859,21 +951,22 @@ theorem CallerInv.enqueue {c : Conn} (r : Nat) (h : CallerInv c) : CallerInv (st
   · split
     · refine { h with tracked := ?_ }
       intro r' hw
-      rcases h.tracked r' hw with m | m | m
+      rcases h.tracked r' hw with m | m | m | mp
       · by_cases e : r' = r
         · subst e; exact Or.inr (Or.inl (by simp))
         · exact Or.inl (List.mem_filter.mpr ⟨m, by simpa using e⟩)
       · exact Or.inr (Or.inl (List.mem_append_left _ m))
-      · exact Or.inr (Or.inr m)
+      · exact Or.inr (Or.inr (Or.inl m))
+      · exact Or.inr (Or.inr (Or.inr mp))
     · exact h
 
 /-- Completing caller `r`'s oneshot with `o` (a frame only if it is `r`'s own). -/
-theorem CallerInv.deliver {c : Conn} (h : CallerInv c) (r : Nat) (o : Outcome) (m' : HMap) (sending queue : List Nat)
-    (server : List (Nat × Nat))
+theorem CallerInv.deliver {c : Conn} (h : CallerInv c) (r : Nat) (o : Outcome) (m' : HMap)
+    (sending queue permits : List Nat) (server : List (Nat × Nat))
     (ho : ∀ f, o = .frame f → f = r)
     (htr : ∀ r', r' ≠ r → getCaller c.callers r' = some .waiting →
-      r' ∈ sending ∨ r' ∈ queue ∨ ∃ s, m'.handlers.get s = some r') :
-    CallerInv ({ c with map := m', sending := sending, queue := queue, server := server,
+      r' ∈ sending ∨ r' ∈ queue ∨ (∃ s, m'.handlers.get s = some r') ∨ r' ∈ permits) :
+    CallerInv ({ c with map := m', sending := sending, queue := queue, permits := permits, server := server,
                         callers := Conn.deliver c.callers r o } : Conn) := by
   constructor
   · intro r' hw
@@ -907,6 +1000,29 @@ theorem CallerInv.deliver {c : Conn} (h : CallerInv c) (r : Nat) (o : Outcome) (
     · exact h.callerLt r' st hg
 
 
+theorem CallerInv.push {c : Conn} (r : Nat) (h : CallerInv c) : CallerInv (step c (.push r)) := by
+  simp only [step]
+  split
+  · split
+    · apply h.deliver r _ c.map c.sending c.queue (c.permits.filter (· != r)) c.server
+      · intro f e; cases e
+      · intro r' hne hw
+        rcases h.tracked r' hw with m | m | m | mp
+        · exact Or.inl m
+        · exact Or.inr (Or.inl m)
+        · exact Or.inr (Or.inr (Or.inl m))
+        · exact Or.inr (Or.inr (Or.inr (List.mem_filter.mpr ⟨mp, by simpa using hne⟩)))
+    · refine { h with tracked := ?_ }
+      intro r' hw
+      rcases h.tracked r' hw with m | m | m | mp
+      · exact Or.inl m
+      · exact Or.inr (Or.inl (List.mem_append_left _ m))
+      · exact Or.inr (Or.inr (Or.inl m))
+      · by_cases e : r' = r
+        · subst e; exact Or.inr (Or.inl (by simp))
+        · exact Or.inr (Or.inr (Or.inr (List.mem_filter.mpr ⟨mp, by simpa using e⟩)))
+  · exact h
+
 theorem CallerInv.writerTake {c : Conn} (hm : MapInv c) (h : CallerInv c) : CallerInv (step c .writerTake) := by
   simp only [step]
   split
@@ -921,35 +1037,38 @@ theorem CallerInv.writerTake {c : Conn} (hm : MapInv c) (h : CallerInv c) : Call
         obtain ⟨_, sfree, _, _, _, _⟩ := sallocate_some hm.len hids
         refine { h with tracked := ?_ }
         intro r' hw
-        show r' ∈ c.sending ∨ r' ∈ q ∨ ∃ s', (c.map.handlers.insert s r).get s' = some r'
-        rcases h.tracked r' hw with m | m | ⟨s', hs'⟩
+        show r' ∈ c.sending ∨ r' ∈ q ∨ (∃ s', (c.map.handlers.insert s r).get s' = some r') ∨ r' ∈ c.permits
+        rcases h.tracked r' hw with m | m | ⟨s', hs'⟩ | mp
         · exact Or.inl m
         · rw [hq] at m
           rcases List.mem_cons.mp m with e | m
-          · subst e; exact Or.inr (Or.inr ⟨s, by simp [AMap.get_insert]⟩)
+          · subst e; exact Or.inr (Or.inr (Or.inl ⟨s, by simp [AMap.get_insert]⟩))
           · exact Or.inr (Or.inl m)
-        · refine Or.inr (Or.inr ⟨s', ?_⟩)
+        · refine Or.inr (Or.inr (Or.inl ⟨s', ?_⟩))
           have hne : s ≠ s' := by
             intro e; subst e
             have := (hm.srvUsed s r' (hm.hSrv s r' hs')).2
             rw [sfree] at this; cases this
           simp only [AMap.get_insert, hne, if_false]; exact hs'
-      · apply h.deliver r _ c.map c.sending q c.server
+        · exact Or.inr (Or.inr (Or.inr mp))
+      · apply h.deliver r _ c.map c.sending q c.permits c.server
         · intro f e; cases e
         · intro r' hne hw
-          rcases h.tracked r' hw with m | m | m
+          rcases h.tracked r' hw with m | m | m | mp
           · exact Or.inl m
           · rw [hq] at m
             rcases List.mem_cons.mp m with e | m
             · exact absurd e hne
             · exact Or.inr (Or.inl m)
-          · exact Or.inr (Or.inr m)
+          · exact Or.inr (Or.inr (Or.inl m))
+          · exact Or.inr (Or.inr (Or.inr mp))
 
 theorem CallerInv.cancel {c : Conn} (r : Nat) (h : CallerInv c) : CallerInv (step c (.cancel r)) := by
   simp only [step]
   have key : (∃ st, getCaller c.callers r = some st) →
       CallerInv ({ c with callers := setCaller c.callers r CallerSt.abandoned,
                           sending := c.sending.filter (fun x => x != r),
+                          permits := c.permits.filter (fun x => x != r),
                           notices := if c.broken then c.notices else c.notices ++ [r] } : Conn) := by
     intro ⟨st, hst⟩
     constructor
@@ -958,10 +1077,11 @@ theorem CallerInv.cancel {c : Conn} (r : Nat) (h : CallerInv c) : CallerInv (ste
       split at hw
       · cases hw
       · rename_i hne
-        rcases h.tracked r' hw with m | m | m
+        rcases h.tracked r' hw with m | m | m | mp
         · exact Or.inl (List.mem_filter.mpr ⟨m, by simpa using fun e => hne e.symm⟩)
         · exact Or.inr (Or.inl m)
-        · exact Or.inr (Or.inr m)
+        · exact Or.inr (Or.inr (Or.inl m))
+        · exact Or.inr (Or.inr (Or.inr (List.mem_filter.mpr ⟨mp, by simpa using fun e => hne e.symm⟩)))
     · intro r' f hf
       simp only [getCaller_setCaller] at hf
       split at hf
@@ -1007,11 +1127,11 @@ theorem CallerInv.orphanerStep {c : Conn} (hm : MapInv c) (h : CallerInv c) : Ca
         have hhs : c.map.handlers.get s = some r := (hm.inv r s).mp hq
         refine { h with noticeAb := fun x hx => h.noticeAb x (hns x hx), tracked := ?_ }
         intro r' hw
-        show r' ∈ c.sending ∨ r' ∈ c.queue ∨ ∃ s', (c.map.handlers.erase s).get s' = some r'
-        rcases h.tracked r' hw with m | m | ⟨s', hs'⟩
+        show r' ∈ c.sending ∨ r' ∈ c.queue ∨ (∃ s', (c.map.handlers.erase s).get s' = some r') ∨ r' ∈ c.permits
+        rcases h.tracked r' hw with m | m | ⟨s', hs'⟩ | mp
         · exact Or.inl m
         · exact Or.inr (Or.inl m)
-        · refine Or.inr (Or.inr ⟨s', ?_⟩)
+        · refine Or.inr (Or.inr (Or.inl ⟨s', ?_⟩))
           have hne : s ≠ s' := by
             intro e; subst e
             rw [hhs] at hs'
@@ -1019,13 +1139,16 @@ theorem CallerInv.orphanerStep {c : Conn} (hm : MapInv c) (h : CallerInv c) : Ca
             subst hs'
             rw [hab] at hw; cases hw
           simp only [AMap.get_erase, hne, if_false]; exact hs'
+        · exact Or.inr (Or.inr (Or.inr mp))
 
-/-- After the router has ended nobody is left waiting, and nothing else changes for the callers. -/
+/-- The callers after the router has ended: a registered or queued waiter holds the connection's error, a parked
+one `ChannelError`; a waiter that holds channel capacity and has not pushed yet is still waiting (its own push
+completes it); nothing else changes. -/
 theorem doBreak_callers (c : Conn) (k : BreakKind) (r : Nat) :
     getCaller (doBreak c k).callers r =
       if getCaller c.callers r = some .waiting then
-        (if r ∈ c.map.handlers.map (·.2) then some (.delivered (.err (.broken k)))
-         else if r ∈ c.queue ∨ r ∈ c.sending then some (.delivered (.err .channelError))
+        (if r ∈ c.map.handlers.map (·.2) ∨ r ∈ c.queue then some (.delivered (.err (.broken k)))
+         else if r ∈ c.sending then some (.delivered (.err .channelError))
          else some .waiting)
       else getCaller c.callers r := by
   show getCaller (failAll (failAll (failAll c.callers _ _) _ _) _ _) r = _
@@ -1044,17 +1167,13 @@ theorem CallerInv.doBreak {c : Conn} (k : BreakKind) (h : CallerInv c) : CallerI
     rw [doBreak_callers] at hw
     split at hw
     · rename_i hwait
-      rcases h.tracked r hwait with m | m | ⟨s, hs⟩
-      · have : r ∈ c.queue ∨ r ∈ c.sending := Or.inr m
-        split at hw
+      rcases h.tracked r hwait with m | m | ⟨s, hs⟩ | mp
+      · split at hw
         · cases hw
-        · first | cases hw | (rw [if_pos this] at hw; cases hw)
-      · have : r ∈ c.queue ∨ r ∈ c.sending := Or.inl m
-        split at hw
-        · cases hw
-        · first | cases hw | (rw [if_pos this] at hw; cases hw)
-      · have := AMap.get_some_mem _ _ _ hs
-        simp only [this, if_true] at hw; cases hw
+        · first | cases hw | (rw [if_pos m] at hw; cases hw)
+      · rw [if_pos (Or.inr m)] at hw; cases hw
+      · rw [if_pos (Or.inl (AMap.get_some_mem _ _ _ hs))] at hw; cases hw
+      · exact Or.inr (Or.inr (Or.inr mp))
     · rename_i hnw; exact absurd hw hnw
   · intro r f hf
     rw [doBreak_callers] at hf
@@ -1103,13 +1222,13 @@ theorem CallerInv.respond {c : Conn} (hm : MapInv c) (i : Nat) (h : CallerInv c)
       · rw [hl]
         exact { h with }
       · rw [hl]
-        apply h.deliver r _ _ c.sending c.queue
+        apply h.deliver r _ _ c.sending c.queue c.permits
         · intro f e; cases e; rfl
         · intro r' hne hw
-          rcases h.tracked r' hw with m | m | ⟨s', hs'⟩
+          rcases h.tracked r' hw with m | m | ⟨s', hs'⟩ | mp
           · exact Or.inl m
           · exact Or.inr (Or.inl m)
-          · refine Or.inr (Or.inr ⟨s', ?_⟩)
+          · refine Or.inr (Or.inr (Or.inl ⟨s', ?_⟩))
             have hne' : s ≠ s' := by
               intro e; subst e
               rw [hh] at hs'
@@ -1117,6 +1236,7 @@ theorem CallerInv.respond {c : Conn} (hm : MapInv c) (i : Nat) (h : CallerInv c)
               exact hne hs'.symm
             show (c.map.handlers.erase s).get s' = some r'
             simp only [AMap.get_erase, hne', if_false]; exact hs'
+          · exact Or.inr (Or.inr (Or.inr mp))
 
 theorem CallerInv.recv {c : Conn} (r : Nat) (h : CallerInv c) : CallerInv (step c (.recv r)) := by
   simp only [step]
@@ -1170,6 +1290,8 @@ theorem Inv.step {c : Conn} (h : Inv c) (e : Ev) : Inv (Conn.step c e) := by
   | submit => exact h.callers.submit
   | submitFull => exact h.callers.submitFull
   | enqueue r => exact h.callers.enqueue r
+  | submitRace => exact h.callers.submitRace
+  | push r => exact h.callers.push r
   | writerTake => exact h.callers.writerTake h.map
   | cancel r => exact h.callers.cancel r
   | orphanerStep => exact h.callers.orphanerStep h.map
